@@ -13,14 +13,42 @@ structure RRet where
   tid  : Tid
   key  : Key
   exec : CallId
-  val  : Val      -- 0 = error, else the instance
+  val  : Val      -- 0 = error (or the nil value of a panicked flight, `Cfg.asrt = false`), else the instance
+  direct : Bool := false   -- returned by the lookup in front of the flight (`Cfg.pre`): no flight, `exec` is meaningless
   deriving Repr, DecidableEq
+
+/-- **The users of the double-checked singleflight pattern** — `flight.Do(key, { look the key up; found → return it;
+load; on error return it; store; return the loaded value })` — differ in two places only:
+
+* `pre`:  the caller looks the key up *before* the flight and returns a hit directly, without any flight
+  (`collection.Cache.Take`: `if val, ok := c.doGet(key); ok { return val, nil }`);
+* `asrt`: after the flight the caller type-asserts the value; for a joiner of a flight whose loader panicked the value
+  is nil and the assertion panics (`ResourceManager.GetResource`: `val.(io.Closer)`, `cacheNode.doTake`:
+  `val.([]byte)`); without it the joiner silently returns `(nil, nil)` (`collection.Cache.Take`).
+
+The transition system below is parameterised by these two flags; every `rm_*` theorem holds for every `Cfg`. -/
+structure Cfg where
+  pre  : Bool
+  asrt : Bool
+  deriving Repr, DecidableEq
+
+/-- `ResourceManager.GetResource` (core/syncx/resourcemanager.go). -/
+def Cfg.getResource : Cfg := { pre := false, asrt := true }
+/-- `collection.Cache.Take` (core/collection/cache.go): map = `c.data`, loader = `fetch`, store = `c.Set`. -/
+def Cfg.cacheTake : Cfg := { pre := true, asrt := false }
+/-- `cacheNode.doTake` (core/stores/cache/cachenode.go): map = the redis key, loader = `query`, store = `cacheVal`. -/
+def Cfg.doTake : Cfg := { pre := false, asrt := true }
 
 namespace RM
 
 /-- program counters: `flightGroup.Do` (as in `SF`) with the closure of `GetResource` in place of `fn`.
 ```
-idle l0 l1 w0 w1 w2 n0 n1 n2 n3      as in SF (createCall)
+idle                                 the caller invokes (GetResource / Take) with a key
+p0    (only `Cfg.pre`) lock for the lookup in front of the flight
+p1    resource, ok := map[key]
+p2    unlock
+p3    if ok { return resource, nil }   (a direct hit: no flight);  else go on to the flight
+l0 l1 w0 w1 w2 n0 n1 n2 n3           as in SF (createCall)
 g0    manager.lock.RLock()
 g1    resource, ok := manager.resources[key]
 g2    manager.lock.RUnlock()
@@ -34,15 +62,17 @@ g8    (deferred) manager.lock.Unlock();  return resource, nil
 m2 d0 d1 d2 d3 r0                    as in SF (makeCall's store and deferred block, return)
 px    the panic leaves Do and GetResource: the leading call ends without returning
 w2    (joiner) `val, err := Do(…)`: after a panicked flight both are nil, and `val.(io.Closer)` panics with a nil
-      interface conversion — the joiner's call ends without returning, too
+      interface conversion — the joiner's call ends without returning, too (`Cfg.asrt`; without the assertion the
+      joiner returns the nil value)
 ``` -/
 inductive PC
-  | idle | l0 | l1 | w0 | w1 | w2 | n0 | n1 | n2 | n3
+  | idle | p0 | p1 | p2 | p3 | l0 | l1 | w0 | w1 | w2 | n0 | n1 | n2 | n3
   | g0 | g1 | g2 | g3 | g4 | g5 | gp | g6 | g7 | g8
   | m2 | d0 | d1 | d2 | d3 | r0 | px
   deriving DecidableEq, Repr
 
 structure St where
+  cfg   : Cfg                   -- which user (constant: no step changes it)
   -- singleflight
   lock  : Option Tid
   calls : Key → Option CallId
@@ -72,8 +102,8 @@ structure St where
   pan     : CallId → Bool       -- create panicked in this flight (then c.val and c.err stay nil)
   rets    : List RRet
 
-def init : St :=
-  { lock := none, calls := fun _ => none, wg := fun _ => 0, cval := fun _ => 0, next := 0,
+def init (cfg : Cfg) : St :=
+  { cfg := cfg, lock := none, calls := fun _ => none, wg := fun _ => 0, cval := fun _ => 0, next := 0,
     rw := none, nrd := 0, res := fun _ => none,
     pc := fun _ => .idle, key := fun _ => 0, reg := fun _ => 0, tmp := fun _ => 0, loc := fun _ => 0,
     found := fun _ => false, pn := fun _ => false,
@@ -82,7 +112,16 @@ def init : St :=
 
 def step (s : St) (t : Tid) (x : Nat) : Option St :=
   match s.pc t with
-  | .idle => some { s with pc := upd s.pc t .l0, key := upd s.key t x }
+  | .idle => if s.cfg.pre = true then some { s with pc := upd s.pc t .p0, key := upd s.key t x }
+             else some { s with pc := upd s.pc t .l0, key := upd s.key t x }
+  | .p0 => if s.rw = none then some { s with nrd := s.nrd + 1, pc := upd s.pc t .p1 } else none
+  | .p1 => some { s with loc := upd s.loc t ((s.res (s.key t)).getD 0), found := upd s.found t (s.res (s.key t)).isSome,
+                         pc := upd s.pc t .p2 }
+  | .p2 => some { s with nrd := s.nrd - 1, pc := upd s.pc t .p3 }
+  | .p3 => if s.found t = true then
+             some { s with pc := upd s.pc t .idle,
+                           rets := { tid := t, key := s.key t, exec := 0, val := s.loc t, direct := true } :: s.rets }
+           else some { s with pc := upd s.pc t .l0 }
   | .l0 => if s.lock = none then some { s with lock := some t, pc := upd s.pc t .l1 } else none
   | .l1 =>
     match s.calls (s.key t) with
@@ -90,7 +129,7 @@ def step (s : St) (t : Tid) (x : Nat) : Option St :=
     | none => some { s with pc := upd s.pc t .n0 }
   | .w0 => some { s with lock := none, pc := upd s.pc t .w1 }
   | .w1 => if s.wg (s.reg t) = 0 then some { s with pc := upd s.pc t .w2 } else none
-  | .w2 => if s.pan (s.reg t) = true then some { s with pc := upd s.pc t .idle }
+  | .w2 => if s.pan (s.reg t) = true ∧ s.cfg.asrt = true then some { s with pc := upd s.pc t .idle }
            else some { s with pc := upd s.pc t .idle,
                               rets := { tid := t, key := s.key t, exec := s.reg t, val := s.cval (s.reg t) } :: s.rets }
   | .n0 => some { s with reg := upd s.reg t s.next, next := s.next + 1, pc := upd s.pc t .n1,
@@ -150,7 +189,7 @@ def stmt : PC → String
   | _ => "(singleflight)"
 
 def succ : PC → List PC
-  | .idle => [.l0] | .l0 => [.l1] | .l1 => [.w0, .n0]
+  | .idle => [.p0, .l0] | .p0 => [.p1] | .p1 => [.p2] | .p2 => [.p3] | .p3 => [.idle, .l0] | .l0 => [.l1] | .l1 => [.w0, .n0]
   | .w0 => [.w1] | .w1 => [.w2] | .w2 => [.idle]
   | .n0 => [.n1] | .n1 => [.n2] | .n2 => [.n3] | .n3 => [.g0]
   | .g0 => [.g1] | .g1 => [.g2] | .g2 => [.g3] | .g3 => [.m2, .g4] | .g4 => [.g5, .gp] | .g5 => [.m2, .g6] | .gp => [.d0]
@@ -164,7 +203,7 @@ def run (s : St) : List (Tid × Nat) → Option St
     | none => none
 
 inductive Reach : St → Prop
-  | init : Reach init
+  | init (cfg : Cfg) : Reach (init cfg)
   | step {s s' : St} (t : Tid) (x : Nat) : Reach s → step s t x = some s' → Reach s'
 
 end RM
